@@ -86,26 +86,35 @@ def run(rep):
             if r["rs"] != "absent" and canon(r["rs"]) != mrs:
                 rep.disagree("parse_tree (Rust) vs RustTwins.rs_parse_tree", q, mrs[:200], r["rs"][:200])
     # ---- sorted_tree_items
-    names = [b"a", b"a.b", b"a-", b"a0", b"a/", b"ab", b"A", b"a b", b"\xff", b"b", b"a.", b"a-b", b"aa", b"a\x01", b"a\x2e", b"a\x30"]
+    names = [b"a", b"a.b", b"a-", b"a0", b"a/", b"ab", b"A", b"a b", b"\xff", b"b", b"a.", b"a-b", b"aa", b"a\x01", b"a\x2e", b"a\x30",
+             b"a/b", b"a/0", b"a\x00", b"a\x00b", b"a//", b"/a"]
+    # names parse_tree lets through although no valid tree holds them ("/" and NUL inside) are part of the domain
+    pool = sorted({p + sep + t for p in (b"a", b"ab", b"foo") for sep in (b"", b"/", b"\x00", b".", b"-", b"0") for t in (b"", b"a", b"b", b"/", b"\x00", b"z")})
     reqs = []
-    for _ in range(150 if not thorough else 3000):
-        chosen = rng.sample(names, rng.randrange(1, 9))
-        ents = [[hx(n), "%x" % rng.choice([0o100644, 0o40000, 0o120000, 0o160000, 0o100755]), hx(b"1" * 40)] for n in chosen if b"/" not in n]
+    for k in range(150 if not thorough else 3000):
+        if k % 5 == 4:
+            # large dictionaries: a comparator that is not a total order shows up as a panic in Rust's sort only on long slices
+            chosen = rng.sample(pool, rng.randrange(25, len(pool)))
+        else:
+            chosen = rng.sample(names, rng.randrange(1, 9))
+        ents = [[hx(n), "%x" % rng.choice([0o100644, 0o40000, 0o120000, 0o160000, 0o100755]), hx(b"1" * 40)] for n in chosen]
         rng.shuffle(ents)
         reqs.append({"fn": "sorted_items", "entries": ents, "name_order": rng.random() < 0.3})
     ires = impl.run(reqs)
     cmplines, cmpmeta = [], []
     for q, r in zip(reqs, ires):
         twins(rep, "sorted_tree_items", {"entries": q["entries"], "name_order": q["name_order"]}, r)
-        if isinstance(r, dict) and not q["name_order"] and r.get("py") not in (None, "fail") and "," in r["py"]:
-            seq = r["py"].split(",")
-            for a, b in zip(seq, seq[1:]):
-                cmplines.append("cmp %s %s %s %s" % (a.split(":")[0], a.split(":")[1], b.split(":")[0], b.split(":")[1]))
-                cmpmeta.append((a, b))
-    for (a, b), m in zip(cmpmeta, model.run(cmplines)):
-        rep.case("tree-order-pair", key=(a, b), nontrivial=True)
-        if m not in ("lt lt", "eq eq"):
-            rep.disagree("sorted_tree_items order vs RustTwins comparators", {"pair": [a, b]}, m, "adjacent entries in ascending order")
+        for who in ("py", "rs"):
+            # each twin's output, pair by pair, against the model's comparator for that twin
+            if isinstance(r, dict) and not q["name_order"] and r.get(who) not in (None, "fail", "absent") and "," in r[who] and not r[who].startswith("baseexc"):
+                seq = r[who].split(",")
+                for a, b in zip(seq, seq[1:]):
+                    cmplines.append("cmp %s %s %s %s" % (a.split(":")[0], a.split(":")[1], b.split(":")[0], b.split(":")[1]))
+                    cmpmeta.append((who, a, b))
+    for (who, a, b), m in zip(cmpmeta, model.run(cmplines)):
+        rep.case("tree-order-pair", key=(who, a, b), nontrivial=True)
+        if m.split(" ")[0 if who == "py" else 1] not in ("lt", "eq"):
+            rep.disagree("sorted_tree_items (%s) order vs RustTwins.%s_tree_cmp" % (who, who), {"pair": [a, b]}, m, "adjacent entries in ascending order")
     # ---- bisect
     reqs = []
     for sl in (20, 32):
@@ -120,7 +129,10 @@ def run(rep):
                             continue
                     reqs.append({"fn": "bisect", "n": str(n), "base": str(base), "step": str(step), "shalen": str(sl), "probe": str(pr),
                                  "start": str(s), "end": str(e)})
-    # (probes are ids: 20 or 32 bytes; the Rust twin refuses other lengths outright, the Python one compares anyway)
+    # probes that are not ids (other lengths) are refused by both twins
+    for pl in (0, 1, 19, 21, 31, 33, 40):
+        for (s, e) in ((0, 6), (3, 1), (0, -1)):
+            reqs.append({"fn": "bisect", "n": "7", "base": "10", "step": "10", "shalen": "20", "probe": "0", "probelen": str(pl), "start": str(s), "end": str(e)})
     for q, r in zip(reqs, impl.run(reqs)):
         twins(rep, "bisect_find_sha", q, r)
     # ---- apply_delta / create_delta (inputs of C03)
@@ -150,14 +162,14 @@ def run(rep):
     # (that both encoders' output decodes to the target under both decoders is checked by C03's matrix)
     # ---- diff_tree helpers
     reqs = []
-    tnames = [b"a", b"a.b", b"a-", b"b", b"c", b"a0", b"dir", b"z"]
+    tnames = [b"a", b"a.b", b"a-", b"b", b"c", b"a0", b"dir", b"z", b"/abs", b"a/", b"a/b"]
     for _ in range(120 if not thorough else 2500):
         def tree():
             if rng.random() < 0.1:
                 return None
             return [[hx(n), "%x" % rng.choice([0o100644, 0o40000, 0o120000]), hx(hashlib.sha1(n + bytes([rng.randrange(3)])).hexdigest().encode())]
                     for n in rng.sample(tnames, rng.randrange(0, 6))]
-        reqs.append({"fn": "merge_entries", "path": hx(rng.choice([b"", b"sub", b"a/b"])), "t1": tree(), "t2": tree()})
+        reqs.append({"fn": "merge_entries", "path": hx(rng.choice([b"", b"sub", b"a/b", b"sub/", b"/"])), "t1": tree(), "t2": tree()})
     for q, r in zip(reqs, impl.run(reqs)):
         twins(rep, "_merge_entries", q, r)
     reqs = []
